@@ -57,8 +57,14 @@ class Dataset(
             # Default DatasetInfo.
             dataset_info = DatasetInfo()
         else:
-            # Load the information.
-            dataset_info = DatasetBase._load(Path(path))
+            # Load the information. Expand the user directory the same way
+            # as `DatasetBase.__init__` does.
+            load_path = Path(path)
+            try:
+                load_path = load_path.expanduser()
+            except RuntimeError:
+                pass
+            dataset_info = DatasetBase._load(load_path)
 
         super().__init__(path=path, dataset_info=dataset_info)
 
